@@ -347,10 +347,15 @@ func c14Decode(kind string, body []byte) (m c14Msg, wellFormed, canonical bool) 
 					if !l.ok || !name.ok || name.empty() {
 						return false
 					}
-					n++
-					if t != 0 || n > 1 {
+					// RFC 6066: every name type carries a 16-bit length, unknown types are skipped,
+					// at most one name per type
+					if t != 0 {
 						canonical = false
 						continue
+					}
+					n++
+					if n > 1 {
+						return false
 					}
 					m.ServerName = string(name.b)
 				}
